@@ -29,6 +29,9 @@ pub struct Caller {
     pub step: Step,
     /// cancel this many ms after arrival (0 = before the first poll)
     pub cancel_after: Option<u64>,
+    /// the call future is created at `at` (poll_ready + call) but first polled this many ms later
+    #[serde(default)]
+    pub poll_delay: u64,
 }
 
 #[derive(Clone, Debug, Serialize, Deserialize)]
@@ -62,13 +65,15 @@ fn case_strategy(tier: Tier) -> BoxedStrategy<BhCase> {
             2 => (1u64..=8).prop_map(|k| Some(k * 10)),
             2 => (1u64..=100).prop_map(Some),
         ],
+        prop_oneof![6 => Just(0u64), 1 => 1u64..=3, 1 => (1u64..=3).prop_map(|k| k * 10)],
     )
-        .prop_map(|(at, clone, svc2, step, cancel_after)| Caller {
+        .prop_map(|(at, clone, svc2, step, cancel_after, poll_delay)| Caller {
             at,
             clone,
             svc2,
             step,
             cancel_after,
+            poll_delay,
         });
     (
         1..=max_hi,
@@ -206,11 +211,16 @@ async fn interp(case: &BhCase) -> Verdict {
     let horizon = case
         .callers
         .iter()
-        .map(|c| c.at + c.cancel_after.unwrap_or(0))
+        .map(|c| c.at + c.cancel_after.unwrap_or(0).max(c.poll_delay))
         .max()
         .unwrap_or(0)
         + 130;
 
+    // futures created but not yet handed to the executor (delayed first poll)
+    let mut held: Vec<Option<futures::future::BoxFuture<'static, Result<crate::svc::Resp, BulkheadServiceError<crate::svc::SErr>>>>> =
+        (0..n).map(|_| None).collect();
+    let fp: Vec<u64> = case.callers.iter().map(|c| c.at + c.poll_delay).collect();
+    let mut saw_delayed_poll = false;
     let mut saw_full_with_queue = false;
     let mut saw_cancel_queued = false;
     let mut saw_cancel_running = false;
@@ -254,16 +264,33 @@ async fn interp(case: &BhCase) -> Verdict {
                     let _ = futures::future::poll_fn(|cx| s.poll_ready(cx)).await;
                     s.call(req)
                 };
-                let task = sim.spawn_call(fut, map_outcome);
-                rt[i].task = Some(task);
+                held[i] = Some(fut);
                 rt[i].arrived = true;
-                if c.cancel_after != Some(0) {
-                    arrivals_now[c.svc2 as usize].push(i);
+            }
+        }
+        for (i, c) in case.callers.iter().enumerate() {
+            if fp[i] == t {
+                if let Some(fut) = held[i].take() {
+                    if c.poll_delay > 0 {
+                        saw_delayed_poll = true;
+                    }
+                    let task = sim.spawn_call(fut, map_outcome);
+                    rt[i].task = Some(task);
+                    if c.cancel_after.map_or(true, |d| c.at + d != t) {
+                        arrivals_now[c.svc2 as usize].push(i);
+                    }
                 }
             }
         }
         // cancellations
         for (i, c) in case.callers.iter().enumerate() {
+            // dropped before it was ever polled
+            if let Some(d) = c.cancel_after {
+                if c.at + d == t && held[i].is_some() {
+                    held[i] = None;
+                    rt[i].cancelled_at = Some(t);
+                }
+            }
             if let (Some(d), Some(task)) = (c.cancel_after, rt[i].task) {
                 if c.at + d == t && sim.state(task) == TaskState::Live {
                     let ent = log.with(|l| entered(l, i as u32));
@@ -318,10 +345,10 @@ async fn interp(case: &BhCase) -> Verdict {
             // waiting beyond the deadline
             if let Some(w) = wait_ms {
                 for &i in &waiting {
-                    if t >= case.callers[i].at + w {
+                    if t >= fp[i] + w {
                         v.c07.push(format!(
-                            "t={t}: caller {i} (arrived {}) still undecided at/after its deadline (max_wait {w} ms)",
-                            case.callers[i].at
+                            "t={t}: caller {i} (created {}, first polled {}) still undecided at/after its deadline (max_wait {w} ms)",
+                            case.callers[i].at, fp[i]
                         ));
                     }
                 }
@@ -404,10 +431,12 @@ async fn interp(case: &BhCase) -> Verdict {
                                         "caller {i} rejected with {name} instead of the bulkhead timeout error"
                                     ));
                                 }
-                                if *t != c.at + w {
+                                // deadline counted from the first poll, or from the creation of the
+                                // call (it cannot resolve before it is polled): both readings pass
+                                if *t != fp[i] + w && *t != fp[i].max(c.at + w) {
                                     v.c07.push(format!(
-                                        "caller {i} arrived at {} with max_wait {w} ms but was rejected at t={t}",
-                                        c.at
+                                        "caller {i} was created at {} and first polled at {} with max_wait {w} ms but was rejected at t={t}",
+                                        c.at, fp[i]
                                     ));
                                 }
                             }
@@ -577,6 +606,9 @@ async fn interp(case: &BhCase) -> Verdict {
     }
     if sim.order.multi_picks > 0 {
         v.classes.push("poll_order_choice");
+    }
+    if saw_delayed_poll {
+        v.classes.push("first_poll_later_than_call");
     }
     v.nontrivial_c01 = saw_full_with_queue
         && (saw_cancel_queued || saw_cancel_running || saw_panic || saw_release_and_arrival);
